@@ -650,6 +650,10 @@ class Env:
             if script[0] == "oserror":
                 rec["outcome"] = "oserror"
                 raise OSError(113, "No route to host")
+            if script[0] == "rt":
+                # (uvloop's sock_connect on a handle it has closed)
+                rec["outcome"] = "rt"
+                raise RuntimeError("unable to perform operation on <TCPTransport closed=True>; the handler is closed")
             peer = addr_infos[min(getattr(self, "tcp_land", 0), len(addr_infos) - 1)][4]  # which candidate answered
             sock = FakeSocket(self, (peer[0], peer[1]))
             rec["outcome"] = "ok"
@@ -686,6 +690,9 @@ class Env:
         self.dns_calls.append((host, port))
         self.log("dns", host=host)
         script = self.dns.get(host, ("error", D))
+        if script[0] == "unicode_error":
+            # what loop.getaddrinfo does with a malformed (but typable) host name: the idna codec refuses it before any lookup
+            raise UnicodeError(f"encoding with 'idna' codec failed (UnicodeError: label empty or too long): {host!r}")
         if script[0] == "hang":
             await self.loop.create_future()
         if script[0] == "ok":
